@@ -19,9 +19,9 @@ func init() {
 	register(&PropInfo{
 		ID: "C07", Level: "other", MinObls: 8,
 		Explanation: "The Elligator 2 map, its inverse, DH agreement and coset coverage are field arithmetic over 2^256 inputs: not decidable by a static rule and NOT decided. Decided are the structural clauses around the arithmetic, each a necessary condition of the stated behaviour: R1 top-bit handling — encoding ORs exactly tweak&0xc0 into byte 31 of the serialised representative; decoding loads the field element exactly once, from a private copy of the caller's 32 bytes whose byte 31 was masked with 0x3f before any field operation (so the two top bits are ignored for all 2^256 strings, not reduced mod p first), and the two masks are complementary; R2 one u — the public key and the representative returned by ScalarBaseMult come from the same scalarBaseMultDirty result, which uToRepresentative does not modify, and publicKey is written only when a representative exists; R3 the dirty multiply adds a low-order point selected by the three low bits of privateKey[0] before converting to Montgomery u; R4 NewKeypair(true) retries with a fresh key until ScalarBaseMult reports success, with private key = digest[0:32] and tweak = digest[63] of one SHA-512 of CSPRNG output; Representative.ToPublic passes (new public key, representative) in that order; R5 re-entrancy — package-level field elements are read-only operands outside init (key generation runs concurrently on a bridge).",
-		NotCovered: []string{"that RepresentativeToPublicKey equals the Elligator 2 map, round trip, DH agreement with X25519, coset coverage, the constants' values (field arithmetic; needs execution or a proof assistant)", "constant-time behaviour"},
-		Trusted:    []string{"go/types+go/ssa faithful", "filippo.io/edwards25519/field: every method writes only its receiver", "edwards25519-extra/elligator2.MontgomeryFlavor implements the map"},
-		Run:        runC07,
+		NotCovered:  []string{"that RepresentativeToPublicKey equals the Elligator 2 map, round trip, DH agreement with X25519, coset coverage, the constants' values (field arithmetic; needs execution or a proof assistant)", "constant-time behaviour"},
+		Trusted:     []string{"go/types+go/ssa faithful", "filippo.io/edwards25519/field: every method writes only its receiver", "edwards25519-extra/elligator2.MontgomeryFlavor implements the map"},
+		Run:         runC07,
 	})
 }
 
